@@ -113,6 +113,8 @@ func Classify(msg string) string {
 		return "panic:" + strings.TrimPrefix(msg, "PANIC:")
 	case msg == "must not be null", msg == "the requested element is null which the schema does not allow":
 		return "nonnull"
+	case msg == "cannot marshal infinite no NaN float values":
+		return "nonfinite"
 	}
 	return "other:" + msg
 }
